@@ -759,6 +759,7 @@ def run(ctx, rep):
     rep.rule("R05.3", "failure => closed stream + EOFError; close() always leaves closed true")
     rep.rule("R05.4", "frame layout agreement between Channel.send and Channel.recv (header(len, flag) + payload + flusher)")
     rep.rule("R05.5", "FIFO hand-off of packets to the transport (append / pop(0))")
+    rep.rule("R05.6", "a closed stream fails fast: no cached descriptor numbers or poll objects")
     rep.assume("kernel fragmentation behaviour and zlib correctness are trusted",
                "Win32PipeStream / NamedPipeStream are dead code on this platform and not armed",
                "close() of the OS-level object is taken as non-raising")
@@ -780,3 +781,5 @@ def run(ctx, rep):
     for o in sub.obs:
         if o.rule == "R12.4":
             rep.ob("R05.5", o.key, o.ok, o.msg, o.loc, o.witness, o.nontrivial, o.kind)
+    from . import hygiene as H
+    H.no_cached_descriptor(ctx, rep, "R05.6", STREAMS)
